@@ -6,7 +6,9 @@ Importing this module installs them (idempotent).
 """
 import sys
 
-assert "/repo" in sys.path or any(p.rstrip("/") == "/repo" for p in sys.path), "PYTHONPATH=/repo required"
+import os as _os
+_REPO = _os.environ.get("VF_REPO", "/repo").rstrip("/")
+assert any(p.rstrip("/") == _REPO for p in sys.path), "PYTHONPATH=%s required" % _REPO
 
 import crosshair.core_and_libs  # noqa: F401  (must load first: it resets all registrations)
 import crosshair.core as cc
